@@ -301,7 +301,28 @@ def run_case(ctx, name, params):
         if any(precs):
             prm_ = [dict({"name": "x%d" % i, "bounds": list(b)}, **({"precision": pr_} if pr_ else {})) for i, (b, pr_) in enumerate(zip(bxs, precs))]
             ctx.count("runs_with_declared_precision")
-        p, a, err = insitu.run_one(setup, hostile=hostile, on_call=on_call, timeout=10, **({"params": prm_} if prm_ else {}))
+        extra_ = {"params": prm_} if prm_ else {}
+        if algo in ("nsga2", "epsmoea") and not any(precs) and r.random() < 0.6:
+            # the search region is re-declared between building the algorithm and running it (these two algorithms build their
+            # generator and operators from the problem's parameter list inside run()), and the objective fails now and then:
+            # every design that reaches the objective -- replacements of failed designs included -- lies in the box declared now
+            nb = [gen.box(r, r.choice(["unit", "mixed", "neg", "asym", "offset"])) for _ in bxs]
+            fr_ = ctx.rng("c08fail", params["seed"])
+            streak_ = {}
+
+            def script_(call_no, vec, individual):
+                if streak_.get(individual.id, 0) < 3 and fr_.random() < 0.15:
+                    streak_[individual.id] = streak_.get(individual.id, 0) + 1
+                    return fr_.choice([TimeoutError, RuntimeError])("injected transient failure")
+                streak_[individual.id] = 0
+                return None
+
+            def prepare_(a_, p_):
+                p_.parameters = [{"name": "x%d" % i, "bounds": list(b)} for i, b in enumerate(nb)]
+                bxs[:] = [list(b) for b in nb]
+            extra_.update(prepare=prepare_, script=script_)
+            ctx.count("runs_after_parameter_list_reassigned_with_failures")
+        p, a, err = insitu.run_one(setup, hostile=hostile, on_call=on_call, timeout=10, **extra_)
         ctx.count("runs")
         if err is None and not bad and r.random() < 0.4:
             # zoom in: the declared box is narrowed in place and the same algorithm object runs again
